@@ -80,6 +80,28 @@ class _Locals:
                         out |= self.sides(d, _depth + 1)
         return out
 
+    def root(self, e: ast.expr, _depth: int = 0) -> ast.expr:
+        '''e with every local that has exactly one (non self-referential) definition replaced by that definition: the test is then
+        stated over self / other directly and does not depend on what the intermediate locals are called.'''
+        loc = self
+
+        class T(ast.NodeTransformer):
+            def visit_Name(self, node: ast.Name) -> ast.AST:
+                if isinstance(node.ctx, ast.Load) and node.id not in ('self', 'other') and _depth < 6:
+                    ds = loc.defs.get(node.id, [])
+                    if len(ds) == 1 and not any(isinstance(x, ast.Name) and x.id == node.id for x in ast.walk(ds[0])):
+                        return loc.root(copy.deepcopy(ds[0]), _depth + 1)
+                return node
+        return T().visit(copy.deepcopy(e))
+
+    def unswappable(self, e: ast.expr) -> tp.List[str]:
+        '''Locals left in e that are rooted in one operand but whose mirror cannot be named (no _self/_other convention).'''
+        out = []
+        for n in ast.walk(e):
+            if isinstance(n, ast.Name) and n.id in self.defs and n.id not in ('self', 'other') and _side(n.id) is None and len(self.sides(n)) == 1:
+                out.append(n.id)
+        return out
+
     def mentions_isna(self, e: ast.AST, _depth: int = 0) -> bool:
         for n in ast.walk(e):
             if isinstance(n, ast.Call):
@@ -212,9 +234,13 @@ def h_equals(ctx: Ctx) -> None:
                 arg = n.args[0]
                 rs, as_ = loc.sides(recv), loc.sides(arg)
                 key = f'nested:{norm(recv)}'
+                recv_r, arg_r = loc.root(recv), loc.root(arg)
+                if loc.unswappable(recv_r) or loc.unswappable(arg_r):
+                    ctx.unk(H3, f, n, f'the mirror of {loc.unswappable(recv_r) + loc.unswappable(arg_r)} cannot be named', key=key)
+                    continue
                 if len(rs) == 1 and len(as_) == 1 and rs != as_:
-                    a = _canon(_strip_us(_swap(recv)))
-                    b = _canon(_strip_us(arg))
+                    a = _canon(_strip_us(_swap(recv_r)))
+                    b = _canon(_strip_us(arg_r))
                     if a != b:
                         ctx.bad(H3, f, n, f'compares {norm(recv)} with {norm(arg)} — different components of the two operands', key=key)
                         continue
@@ -296,7 +322,10 @@ def _check_compare(ctx: Ctx, rule: str, f: FuncInfo, c: ast.Compare, loc: _Local
     if not ls and not rs:
         return
     key = f'cmp:{norm(c)}'
-    if len(ls) == 1 and len(rs) == 1 and ls != rs:
+    l, r = loc.root(l), loc.root(r)
+    if loc.unswappable(l) or loc.unswappable(r):
+        ctx.unk(rule, f, c, f'the mirror of {loc.unswappable(l) + loc.unswappable(r)} cannot be named', key=key)
+    elif len(ls) == 1 and len(rs) == 1 and ls != rs:
         a, b = _canon(_strip_us(_swap(l))), _canon(_strip_us(r))
         if a == b:
             ctx.ok(rule, f, c, f'`{norm(l)}` vs the same expression over the other operand', key=key)
@@ -331,7 +360,10 @@ def _check_test(ctx: Ctx, H2: str, H2b: str, f: FuncInfo, k, t: ast.expr, loc: _
         ctx.ok(H2, f, t, 'class gate isinstance(other, OwnClass)', key=f'test:{norm(t)}')
         return
     sides = loc.sides(pt)
-    if sides:
+    pt = loc.root(pt)
+    if sides and loc.unswappable(pt):
+        ctx.unk(H2, f, t, f'the mirror of {loc.unswappable(pt)} cannot be named: symmetry of this test is not decided', key=f'test:{norm(t)}')
+    elif sides:
         if _canon(pt) == _canon(_swap(pt)):
             ctx.ok(H2, f, t, 'test is invariant under self<->other', key=f'test:{norm(t)}')
         else:
